@@ -51,9 +51,21 @@ func runReplay(in string, sum *tl.Summary) {
 			for _, kv := range a.Stor {
 				st[uint64(kv[0])] = uint64(kv[1])
 			}
+			if a.Addr < 0 {
+				real := me.AuthAddr(int(-2 - a.Addr))
+				w.Add(&me.Account{Real: &real, Tok: a.Addr, Balance: a.Bal, Nonce: a.Nonce, Code: toBytes(a.Code), Storage: st})
+				continue
+			}
 			w.Add(&me.Account{Addr: uint64(a.Addr), Balance: a.Bal, Nonce: a.Nonce, Code: toBytes(a.Code), Storage: st})
 		}
 		data := toBytes(c.Tx.Data)
+		if c.Tx.To < 0 {
+			real := me.AuthAddr(int(-2 - c.Tx.To))
+			c.Tx.ToReal = &real
+		}
+		if c.Tx.SetCode {
+			c.Tx.AuthList = me.SignAuths(c.Tx.Auths)
+		}
 		res := me.Execute(w, &c.Tx, data, false)
 		sum.Evaluations++
 		sum.Steps += res.Tr.NOps
@@ -81,6 +93,9 @@ func runReplay(in string, sum *tl.Summary) {
 			}
 			for _, p := range c.Expect.Post {
 				a := me.Addr(uint64(p.Addr))
+				if p.Addr < 0 {
+					a = me.AuthAddr(int(-2 - p.Addr))
+				}
 				if b := res.St.GetBalance(a); !b.IsUint64() || b.Uint64() != p.Bal {
 					diffs = append(diffs, fmt.Sprintf("balance of %#x: implementation %v, specification %d", p.Addr, b, p.Bal))
 				}
